@@ -194,7 +194,7 @@ pub fn generate(seed: u64, n: usize, thorough: bool, corpus: Option<&str>) -> Ve
         made += 1;
         let depth = 1 + r.below(3) as u32;
         let mode = r.below(3) as u8;
-        let kind = *r.pick(&["min", "max", "min", "max", "solve"]);
+        let kind = *r.pick(&["min", "max", "min", "max", "min", "max", "min", "max", "min", "solve"]);
         let obj = if kind == "solve" { "solve".to_string() } else { format!("{} {}", kind, render_exp(&mut r, &core, depth, mode)) };
         let k = 1 + r.below(3);
         let mut body = format!("{}\ns.t.\n", obj);
